@@ -35,12 +35,15 @@ impl MioListener {
     pub uninterp spec fn id(&self) -> int;
     pub uninterp spec fn registered(&self) -> bool;
     pub uninterp spec fn accepts(&self) -> nat;
+    /// the most recent `accept()` on this listener answered WouldBlock: its backlog has been drained
+    pub uninterp spec fn drained(&self) -> bool;
 
     #[verifier::external_body]
     pub fn accept(&mut self) -> (r: io::Result<MioStream>)
         ensures final(self).id() == old(self).id(),
                 final(self).registered() == old(self).registered(),
                 final(self).accepts() == old(self).accepts() + 1,
+                final(self).drained() <==> (r matches Err(e) && e.spec_kind() == ErrorKind::WouldBlock),
                 r matches Ok(s) ==> s.origin() == old(self).id(),
     { unimplemented!() }
 }
@@ -59,11 +62,13 @@ impl Registry {
     pub fn register(&self, src: &mut MioListener, token: MioToken, interest: Interest) -> (r: io::Result<()>)
         requires token.0 < self.token_bound(), token.0 as int == old(src).id(),
         ensures final(src).registered(), final(src).id() == old(src).id(), final(src).accepts() == old(src).accepts(),
+                final(src).drained() == old(src).drained(),
     { unimplemented!() }
 
     #[verifier::external_body]
     pub fn deregister(&self, src: &mut MioListener) -> (r: io::Result<()>)
         ensures !final(src).registered(), final(src).id() == old(src).id(), final(src).accepts() == old(src).accepts(),
+                final(src).drained() == old(src).drained(),
     { unimplemented!() }
 }
 
@@ -231,6 +236,37 @@ impl Accept {
     pub open spec fn reg(&self) -> Registry { self.poll.spec_registry() }
 }
 
+impl Accept {
+    /// some worker is marked available
+    pub open spec fn has_capacity(&self) -> bool { exists|i: usize| self.avail@.contains(i) }
+}
+
+pub open spec fn all_alive(a: &Accept) -> bool {
+    forall|k: int| 0 <= k < a.handles@.len() ==> (#[trigger] a.handles@[k]).alive()
+}
+
+/// the handle `j` positions after `next` in rotation order
+pub open spec fn rot_handle(a: &Accept, j: int) -> WorkerHandleAccept {
+    a.handles@[(a.next + j) % (a.handles@.len() as int)]
+}
+
+/// the first available worker in rotation order from `next` is `steps` positions away   [C04]
+pub open spec fn first_avail_at(a: &Accept, steps: int) -> bool {
+    &&& a.avail@.contains(rot_handle(a, steps).spec_idx())
+    &&& forall|j: int| 0 <= j < steps ==> !a.avail@.contains((#[trigger] rot_handle(a, j)).spec_idx())
+}
+
+/// some position whose handle is marked available (termination witness)
+pub open spec fn pick(h: Seq<WorkerHandleAccept>, av: Set<usize>) -> int {
+    choose|k: int| 0 <= k < h.len() && av.contains((#[trigger] h[k]).spec_idx())
+}
+
+pub open spec fn rotdist(h: Seq<WorkerHandleAccept>, av: Set<usize>, next: int) -> int {
+    let k = pick(h, av);
+    if !(0 <= k < h.len() && av.contains(h[k].spec_idx())) { 0 }
+    else if k >= next { k - next } else { k + h.len() - next }
+}
+
 pub open spec fn swap_removed<T>(s: Seq<T>, i: int) -> Seq<T> {
     s.update(i, s.last()).drop_last()
 }
@@ -319,7 +355,10 @@ impl Accept {
             &&& final(self).srv == old(self).srv
         },
         // the connection is given up only when the last handle has just been removed   [C01]
-        r.is_ok() && !old(self).handles@[old(self).next as int].alive() ==> final(self).handles@.len() == 0 && old(self).handles@.len() == 1,
+        r.is_ok() && !old(self).handles@[old(self).next as int].alive() ==> {
+            &&& final(self).handles@.len() == 0 && old(self).handles@.len() == 1
+            &&& final(self).srv.faulted() == old(self).srv.faulted().push(old(self).handles@[old(self).next as int].spec_idx())
+        },
         r.is_ok() ==> old(self).handles@[old(self).next as int].alive() || final(self).handles@.len() == 0,   // [C01,C08]
         // refused by a dead worker: the same connection comes back, exactly that handle is gone   [C01,C08]
         r matches Err(c) ==> {
@@ -329,9 +368,105 @@ impl Accept {
             &&& final(self).handles@.len() > 0
             &&& final(self).avail@ == old(self).avail@.remove(old(self).handles@[old(self).next as int].spec_idx())
             &&& final(self).srv.faulted() == old(self).srv.faulted().push(old(self).handles@[old(self).next as int].spec_idx())
+            // membership form of "exactly that handle is gone"
+            &&& forall|i: int| 0 <= i < final(self).handles@.len() ==> old(self).handles@.contains(#[trigger] final(self).handles@[i])
+            &&& forall|j: int| 0 <= j < old(self).handles@.len() && j != old(self).next ==> final(self).handles@.contains(#[trigger] old(self).handles@[j])
         },
 //@insert after="self.remove_next();"
-                proof { lemma_wf_after_remove(*old(self), *self); }
+                proof {
+                    lemma_wf_after_remove(*old(self), *self);
+                    lemma_swap_remove_contains(old(self).handles@, old(self).next as int);
+                }
+//@end
+
+
+//@extract file=actix-server/src/accept.rs item="impl Accept / fn accept_one" props=C01,C04,C08
+//@spec
+    requires
+        old(self).wf(),
+        old(self).handles@.len() > 0,
+        conn.wf(),
+    ensures
+        final(self).wf(),
+        final(self).same_ctl(old(self)),
+        // no handle is invented, and only dead workers are ever removed   [C08]
+        forall|i: int| 0 <= i < final(self).handles@.len() ==> old(self).handles@.contains(#[trigger] final(self).handles@[i]),
+        forall|k: int| 0 <= k < old(self).handles@.len() && (#[trigger] old(self).handles@[k]).alive() ==> final(self).handles@.contains(old(self).handles@[k]),   // [C08]
+        // one fault notification per removed handle   [C08]
+        final(self).srv.faulted().len() - old(self).srv.faulted().len() == old(self).handles@.len() - final(self).handles@.len(),
+        // the call ends with a successful hand-over to a live worker, or with no worker left   [C01,C08]
+        final(self).handles@.len() == 0 || exists|k: int| 0 <= k < final(self).handles@.len() && (#[trigger] final(self).handles@[k]).alive(),
+        // round robin over available workers (no fault, some capacity): the connection goes to the first available
+        // worker in rotation order starting at `next`, and `next` moves just past it   [C04]
+        (forall|k: int| 0 <= k < old(self).handles@.len() ==> (#[trigger] old(self).handles@[k]).alive())
+          && old(self).has_capacity() ==> {
+            &&& final(self).handles == old(self).handles
+            &&& final(self).srv == old(self).srv
+            &&& exists|steps: int| 0 <= steps && first_avail_at(old(self), steps)
+                  && final(self).next == (old(self).next + steps + 1) % (old(self).handles@.len() as int)
+                  && (final(self).avail@ == old(self).avail@
+                      || final(self).avail@ == old(self).avail@.remove(old(self).handles@[(old(self).next + steps) % (old(self).handles@.len() as int)].spec_idx()))
+        },
+//@insert before="loop {"
+        let ghost mut steps: int = 0;
+        proof { vstd::arithmetic::div_mod::lemma_small_mod(self.next as nat, self.handles@.len() as nat); }
+//@insert after="loop {"
+            let ghost avail0 = self.avail@;
+            let ghost next0 = self.next as int;
+//@insert after="if self.avail.get_available(idx) {"
+                proof {
+                    lemma_mod_step(old(self).next + steps, old(self).handles@.len() as int);
+                    if all_alive(old(self)) && old(self).has_capacity() {
+                        assert(rot_handle(old(self), steps) == self.handles@[self.next as int]);
+                        assert(first_avail_at(old(self), steps));
+                    }
+                }
+//@insert after="self.set_next();"
+                proof {
+                    assert(self.avail@ =~= avail0);
+                    lemma_mod_step(old(self).next + steps, old(self).handles@.len() as int);
+                    if all_alive(old(self)) && old(self).has_capacity() {
+                        assert(rot_handle(old(self), steps).spec_idx() == idx);
+                    }
+                    steps = steps + 1;
+                }
+//@insert arm_end="} else"
+                proof {
+                    // the worker at the previous `next` is not available but some worker is: one step closer to it
+                    lemma_rotdist_dec(self.handles@, self.avail@, avail0, idx, next0);
+                }
+//@loop 1
+        invariant
+            self.wf(),
+            self.handles@.len() > 0,
+            conn.wf(),
+            self.same_ctl(old(self)),
+            forall|i: int| 0 <= i < self.handles@.len() ==> old(self).handles@.contains(#[trigger] self.handles@[i]),
+            forall|k: int| 0 <= k < old(self).handles@.len() && (#[trigger] old(self).handles@[k]).alive() ==> self.handles@.contains(old(self).handles@[k]),
+            self.srv.faulted().len() - old(self).srv.faulted().len() == old(self).handles@.len() - self.handles@.len(),
+            0 <= steps,
+            all_alive(old(self)) && old(self).has_capacity() ==> {
+                &&& self.handles == old(self).handles
+                &&& self.srv == old(self).srv
+                &&& self.avail@ == old(self).avail@
+                &&& self.next == (old(self).next + steps) % (old(self).handles@.len() as int)
+                &&& forall|j: int| 0 <= j < steps ==> !old(self).avail@.contains((#[trigger] rot_handle(old(self), j)).spec_idx())
+            },
+        decreases self.handles@.len(), rotdist(self.handles@, self.avail@, self.next as int),
+//@loop 2
+        invariant_except_break
+            self.handles@.len() > 0,
+            conn.wf(),
+        invariant
+            self.wf(),
+            self.same_ctl(old(self)),
+            !(all_alive(old(self)) && old(self).has_capacity()),
+            forall|i: int| 0 <= i < self.handles@.len() ==> old(self).handles@.contains(#[trigger] self.handles@[i]),
+            forall|k: int| 0 <= k < old(self).handles@.len() && (#[trigger] old(self).handles@[k]).alive() ==> self.handles@.contains(old(self).handles@[k]),
+            self.srv.faulted().len() - old(self).srv.faulted().len() == old(self).handles@.len() - self.handles@.len(),
+        ensures
+            self.handles@.len() == 0 || exists|k: int| 0 <= k < self.handles@.len() && (#[trigger] self.handles@[k]).alive(),
+        decreases self.handles@.len(),
 //@end
 
 } // impl Accept
@@ -359,6 +494,69 @@ pub proof fn lemma_wf_after_remove(o: Accept, n: Accept)
         } else {
             assert(n.handles@[k].spec_idx() == x);
         }
+    }
+}
+//@end
+
+
+//@lemma lemma_mod_step props=C04
+pub proof fn lemma_mod_step(a: int, n: int)
+    requires n > 0, a >= 0,
+    ensures ((a % n) + 1) % n == (a + 1) % n,
+{
+    vstd::arithmetic::div_mod::lemma_add_mod_noop(a, 1, n);
+    if n == 1 {
+        assert((a % n) == 0) by { vstd::arithmetic::div_mod::lemma_mod_bound(a, n); }
+    } else {
+        vstd::arithmetic::div_mod::lemma_small_mod(1, n as nat);
+    }
+}
+//@end
+
+//@lemma lemma_swap_remove_contains props=C08
+pub proof fn lemma_swap_remove_contains<T>(s: Seq<T>, i: int)
+    requires 0 <= i < s.len(),
+    ensures
+        forall|j: int| 0 <= j < swap_removed(s, i).len() ==> s.contains(#[trigger] swap_removed(s, i)[j]),
+        forall|j: int| 0 <= j < s.len() && j != i ==> swap_removed(s, i).contains(#[trigger] s[j]),
+{
+    let r = swap_removed(s, i);
+    let last = s.len() - 1;
+    assert forall|j: int| 0 <= j < r.len() implies s.contains(#[trigger] r[j]) by {
+        if j == i { assert(r[j] == s[last]); } else { assert(r[j] == s[j]); }
+    }
+    assert forall|j: int| 0 <= j < s.len() && j != i implies r.contains(#[trigger] s[j]) by {
+        if j == last { assert(r[i] == s[j]); } else { assert(r[j] == s[j]); }
+    }
+}
+//@end
+
+//@lemma lemma_rotdist_dec props=C08
+/// termination witness of accept_one's scan: skipping an unavailable worker while some worker is available
+/// strictly reduces the rotation distance to the picked available worker
+pub proof fn lemma_rotdist_dec(h: Seq<WorkerHandleAccept>, av: Set<usize>, av0: Set<usize>, idx: usize, prev: int)
+    requires
+        h.len() > 0,
+        0 <= prev < h.len(),
+        av =~= av0,
+        h[prev].spec_idx() == idx,
+        !av.contains(idx),
+        exists|i: usize| av.contains(i),
+        forall|x: usize| #[trigger] av.contains(x) ==> exists|k: int| 0 <= k < h.len() && (#[trigger] h[k]).spec_idx() == x,
+    ensures
+        0 <= rotdist(h, av, (prev + 1) % (h.len() as int)) < rotdist(h, av0, prev),
+{
+    let n = h.len() as int;
+    let x = choose|i: usize| av.contains(i);
+    let kk = choose|k: int| 0 <= k < h.len() && (#[trigger] h[k]).spec_idx() == x;
+    assert(0 <= kk < h.len() && av.contains(h[kk].spec_idx()));
+    let k = pick(h, av);
+    assert(0 <= k < h.len() && av.contains(h[k].spec_idx()));
+    assert(k != prev);
+    if prev + 1 < n {
+        vstd::arithmetic::div_mod::lemma_small_mod((prev + 1) as nat, n as nat);
+    } else {
+        vstd::arithmetic::div_mod::lemma_mod_self_0(n);
     }
 }
 //@end
